@@ -37,7 +37,8 @@ MANIFEST = {
                   'exception-escape analysis against the documented Raises contract (guarded '
                   'lookups on the exception-aware CFG), mutation-after-fallible-lookup ordering, '
                   'table/column cascade coverage from the sqla.Table declarations, alias analysis'
-                  '; symbolic SQLAlchemy statement model (sqlmodel) for cascade/filters; cache-coherence rule over in-memory containers of the SQL backend; result-shaping clauses (ORDER BY on string columns, LIMIT)'),
+                  '; symbolic SQLAlchemy statement model (sqlmodel) for cascade/filters; cache-coherence rule over in-memory containers of the SQL backend; result-shaping clauses (ORDER BY on string columns, LIMIT)'
+                  '; write-footprint agreement of the two backends per method (tables vs containers); update-never-inserts dominance check; unconditional cascade (post-dominance of every delete)'),
     'level_text': (
         'Static: everything about the two backends that is visible in their text agrees — '
         'interface, escaping error classes per method, atomicity of update_metadata, the '
